@@ -83,6 +83,7 @@ type Net struct {
 	tags      []string // tag id -> host
 	tagOf     map[string]uint64
 	gossipPorts map[int]bool
+	refuse      map[int]bool // ports on which new connections are refused (circuit breaker of the harness)
 
 	nextConn int
 	nextPort int
@@ -97,6 +98,9 @@ type Net struct {
 	// OnDeliver observes every datagram at the instant it is handed to the
 	// destination socket.
 	OnDeliver func(src, dst string, b []byte)
+	// OnFirstWrite observes a stream connection when its dialling side writes
+	// for the first time (Head then holds the beginning of the request).
+	OnFirstWrite func(c *ConnInfo)
 
 	Conns []*ConnInfo
 }
@@ -128,7 +132,7 @@ func Reset(run *simkit.Run, cfg Config) *Net {
 		listeners: map[string]*Listener{}, pconns: map[string]*PacketConn{},
 		pairs: map[int]*pair{}, down: map[string]int{}, blocked: map[[2]string]int{},
 		lastDeliv: map[string]time.Time{}, names: map[string][]string{},
-		tags: []string{""}, tagOf: map[string]uint64{}, gossipPorts: map[int]bool{},
+		tags: []string{""}, tagOf: map[string]uint64{}, gossipPorts: map[int]bool{}, refuse: map[int]bool{},
 		nextPort: 20000, topo: make(chan struct{}),
 	}
 	Default = n
@@ -163,6 +167,10 @@ func CurrentHost() string {
 	}
 	return ""
 }
+
+// RefusePort makes every new connection to the port fail (used by harness
+// oracles to stop a runaway, e.g. a forwarding loop, once it has been judged).
+func (n *Net) RefusePort(p int) { n.mu.Lock(); n.refuse[p] = true; n.mu.Unlock() }
 
 // MarkGossipPort declares a port number as carrying gossip (for ClassGossip).
 func (n *Net) MarkGossipPort(p int) { n.mu.Lock(); n.gossipPorts[p] = true; n.mu.Unlock() }
@@ -687,7 +695,11 @@ func (c *Conn) Write(b []byte) (int, error) {
 			if room > len(data) {
 				room = len(data)
 			}
+			first := len(c.pr.info.Head) == 0
 			c.pr.info.Head = append(c.pr.info.Head, data[:room]...)
+			if first && n.OnFirstWrite != nil {
+				n.OnFirstWrite(c.pr.info)
+			}
 		}
 		// segmentation: cut the accepted bytes into several deliveries
 		for len(data) > 0 {
@@ -1026,7 +1038,7 @@ func DialContext(ctx context.Context, network, addr string) (net.Conn, error) {
 	}
 	n.mu.Lock()
 	l := n.listeners[dstKey]
-	if l == nil || n.down[host] == 1 {
+	if l == nil || n.down[host] == 1 || n.refuse[portN] {
 		n.mu.Unlock()
 		n.run.Fault("dial_refused")
 		return nil, &net.OpError{Op: "dial", Net: network, Addr: tcpAddr(dstKey), Err: syscall.ECONNREFUSED}
